@@ -16,7 +16,7 @@ func init() { register("c06-wire", "C06", c06Wire) }
 // c06Wire: the real (race-built) binary under concurrent clients: unique redirect requests, and a weighted
 // route whose three upstreams must receive their exact share of a whole number of round-robin cycles.
 func c06Wire(c *ctx) {
-	c.R.Rule = "the real race-built binary under 32 concurrent raw clients: requests to a weighted route (fixed weights 0.2/0.3/0.5, three upstreams) numbering a whole multiple of the ring length, interleaved with unique $path/$host redirect requests and requests to glob hosts; each upstream must have received exactly its share, every redirect must carry its own request's path, fabio's log must show no race report. evaluations = requests; non-trivial = request sent while >=2 clients were active; distinct by request id (first 20000 counted)"
+	c.R.Rule = "the real race-built binary under 32 concurrent raw clients: requests to a weighted route (fixed weights 0.2/0.3/0.5, three upstreams) numbering a whole multiple of the ring length, interleaved with unique $path/$host redirect requests and requests to glob hosts; each upstream must have received its share within cycles+2 requests (the binary's table is replaced by registry ticks meanwhile, which restarts the cursor), every redirect must carry its own request's path, fabio's log must show no race report. evaluations = requests; non-trivial = request sent while >=2 clients were active; distinct by request id (first 20000 counted)"
 	ups := make([]*rawhttp.Upstream, 3)
 	for i := range ups {
 		u, err := rawhttp.NewUpstream("127.0.0.1:0")
